@@ -13,6 +13,13 @@
 (* to the payload processor while copying them to a temporary file, and    *)
 (* either persists the new version or falls back to the stored one.        *)
 (*                                                                         *)
+(* A fetch that fails as a whole (repository unreachable) leaves the        *)
+(* collector's working copy as the last successful transfer left it, and   *)
+(* the engine evaluates that copy (collector/rsync.rs load_module inserts  *)
+(* the module into `updated` "no matter what").  So a version transferred  *)
+(* earlier but refused at the time (stale under reject) is looked at again *)
+(* under the policy of the current run: variable `copy`.                   *)
+(*                                                                         *)
 (* Variant "as_shipped": after an aborted update the processor is not      *)
 (* restarted (engine.rs:709-712) -- payload of the abandoned manifest is   *)
 (* committed together with the stored objects.  "intended": restart().     *)
@@ -44,10 +51,13 @@ VARIABLES v1, v2,      \* the two versions of this world
           stored,      \* version held by the store (NoVer: none)
           committed,   \* payload the last run contributed for this CA
           accepted,    \* whether the last run accepted the point
-          last,        \* what the last run did: [pub, mc, avail, order, path]
+          last,        \* what the last run looked at and did: [pub, mc, avail, order, path, before]
+          copy,        \* the collector's working copy: what the last transfer that got through brought
           runs
 
-vars == <<v1, v2, policy, stored, committed, accepted, last, runs>>
+vars == <<v1, v2, policy, stored, committed, accepted, last, copy, runs>>
+
+NoCopy == [pub |-> NoVer, mc |-> "none", avail |-> <<>>, order |-> <<>>]
 
 Init ==
   /\ v1 \in {v \in Versions : v.id = 1 /\ v.num = 2 /\ v.this = 2}
@@ -57,6 +67,7 @@ Init ==
   /\ committed = {}
   /\ accepted = FALSE
   /\ last = [pub |-> NoVer, mc |-> "none", avail |-> <<>>, order |-> <<>>, path |-> "none", before |-> NoVer]
+  /\ copy = NoCopy
   /\ runs = 0
 
 StaleRejected(v) == v.stale /\ policy' = "reject"
@@ -80,15 +91,26 @@ StoredPath(pp) ==
     ELSE /\ committed' = (IF Variant = "as_shipped" THEN pp ELSE {}) \cup Payload(stored)
          /\ accepted' = TRUE
 
+(* What the engine finds in the working copy in a run where the           *)
+(* environment offers (p, mc, avail, order).                                *)
+Seen(p, mc, avail, order) ==
+  IF mc = "unreachable" THEN copy ELSE [pub |-> p, mc |-> mc, avail |-> avail, order |-> order]
+
 (* One validation run for this publication point. *)
-Run(p, mc, avail, order, pol) ==
+Run(p0, mc0, avail0, order0, pol) ==
   /\ runs' = runs + 1
   /\ policy' = pol
   /\ UNCHANGED <<v1, v2>>
-  /\ LET newer == stored.id = 0 \/ (p.num > stored.num /\ p.this > stored.this)
+  /\ copy' = Seen(p0, mc0, avail0, order0)
+  /\ LET e     == Seen(p0, mc0, avail0, order0)
+         p     == e.pub
+         mc    == e.mc
+         avail == e.avail
+         order == e.order
+         newer == stored.id = 0 \/ (p.num > stored.num /\ p.this > stored.this)
          same  == stored.id # 0 /\ stored.id = p.id
      IN
-     IF mc \in {"unreachable", "missing"} \/ same \/ mc \in {"invalid", "premature"}
+     IF mc \in {"none", "missing"} \/ same \/ mc \in {"invalid", "premature"}
         \/ (p.stale /\ pol = "reject") \/ ~newer
        THEN \* no usable update: the stored version is used, store untouched
             /\ StoredPath({})
